@@ -13,7 +13,8 @@ from harness import leaves as lv
 from harness.common import fhex, fparse
 
 PROPERTY = "C02"
-GROUPS = ["leaves"]
+GROUPS = ["leaves", "bij"]
+EXTRA_PROPS = ["Props/X01_bij.v"]  # inverse / log-det laws for every combinator tree (Model/Bij.v)
 MANIFEST = {
     "design_ref": "DESIGN.md 4.2",
     "technique": "Coq/Coquelicot proofs (is_derive) that each leaf's reported log-det is ln|f'(x)| of the map the model computes, inverse law, sums over chains/lifts, triangular determinant + executed correspondence + autodiff Jacobian as search oracle",
